@@ -44,28 +44,46 @@ def tagname(cfg, r):
 def run_pylogix(job):
     import pylogix
     from .. import clientlib, sim
-    cfg, mem0, ops, multi = job
+    cfg, mem0, ops, multi = job[:4]
+    route, bystander = (job[4], job[5]) if len(job) > 4 else (None, None)
     srv = clientlib.server(dict(cfg, budget=488))
     clientlib.wait_idle()
     srv.dev.set_mem(mem0)
     comm = pylogix.PLC()
     comm.IPAddress, comm.Port = srv.address[0], srv.address[1]
     comm.SocketTimeout = 5.0
+    if route:
+        comm.Route = [tuple(x) for x in route]          # a multi-hop connection path (backplane / network hops before the controller)
     obs, exc = [], ""
 
     def ob(r, res):
         st = status_code(res.Status)
         t = cfg["tags"][r["tag"] - 1]["type"] if r["tag"] else "INT"
         if st != 0:
-            return {"st": st, "ext": [65535], "vals": [], "ok": False, "bytes": []}
+            return {"st": st, "ext": [65535], "vals": [], "ok": False, "bytes": [], "exact5": r["tag"] == 0}
         if r["svc"] == "write":
-            return {"st": 0, "ext": [], "vals": [], "ok": True, "bytes": []}
+            return {"st": 0, "ext": [], "vals": [], "ok": True, "bytes": [], "exact5": False}
         v = res.Value if isinstance(res.Value, list) else [res.Value]
-        return {"st": 0, "ext": [], "vals": [sim.enc_elem(t, x) for x in v], "ok": True, "bytes": []}
+        return {"st": 0, "ext": [], "vals": [sim.enc_elem(t, x) for x in v], "ok": True, "bytes": [], "exact5": False}
     try:
         i = 0
         while i < len(ops):
             r = ops[i]
+            if bystander is not None and i == bystander[0]:
+                # another client of the same host registers, opens a connection and drops its socket without closing anything
+                s2 = socket.create_connection(srv.address, timeout=5)
+                try:
+                    for fb in bystander[1]:
+                        s2.sendall(bytes(bytearray(fb)))
+                        s2.settimeout(2)
+                        try:
+                            s2.recv(4096)
+                        except socket.timeout:
+                            pass
+                finally:
+                    s2.close()
+                import time
+                time.sleep(0.1)
             group = []
             if multi:
                 j = i
@@ -182,6 +200,19 @@ def main(ctx):
         lists = rng.sample(lists, 250)
     longer = [[rng.choice(basis) for _ in range(rng.randint(5, 10))] for _ in range(40 if ctx.quick else 150)]
     jobs = [(cfg, mem0, lst, False) for lst in lists] + [(cfg, mem0, lst, True) for lst in longer]
+    # multi-hop connection paths, and a second client of the same host that vanishes while the session is open
+    unknown = [r for r in basis if r["tag"] == 0]
+    rconn0 = [j for j in res.json if j.get("k") == "rawconn" and j["f"]["kind"] == "fwdopen"]
+    routes = [[(1, 2), (2, 7)], [(1, 2), (2, "10.0.0.5"), (1, 0)], [(1, 0)]]
+    for n in range(9 if ctx.quick else 60):
+        lst = [rng.choice(basis) for _ in range(rng.randint(3, 6))] + unknown[:1] + [rng.choice(basis)]
+        jobs.append((cfg, mem0, lst, bool(n % 2), routes[n % 3], None))
+    if rawreg and rconn0 and unknown:
+        for n in range(6 if ctx.quick else 40):
+            lst = [rng.choice(basis) for _ in range(rng.randint(2, 4))]
+            at = len(lst)
+            lst = lst + unknown[:1] + [rng.choice(basis), rng.choice(basis)]
+            jobs.append((cfg, mem0, lst, False, None, [at, [rawreg[0]["fb"], rng.choice(rconn0)["fb"]]]))
     lines = core.pmap(run_pylogix, jobs, chunksize=4)
     for ln in lines:
         nt = any(r["svc"] == "write" for r in ln["ops"]) and any(r["svc"] == "read" for r in ln["ops"]) or any(r["n"] >= 300 or r["tag"] == 0 or r["idx"] + r["n"] > 600 for r in ln["ops"])
